@@ -105,6 +105,7 @@ static std::string dynar_op(xbt_dynar_t d, const std::vector<std::string>& t)
 int main()
 {
   xbt_log_control_set("root.thres:critical");
+  simgrid::config::set_as_string("debug/stacktrace", "none"); // once: an aborting child prints no backtrace
   xbt_dynar_t d = xbt_dynar_new(sizeof(int), nullptr);
   xbt_dict_t dict = xbt_dict_new_homogeneous(nullptr);
   std::string line;
@@ -129,7 +130,6 @@ int main()
         if (pid == 0) {
           struct rlimit rl = {0, 0};
           setrlimit(RLIMIT_CORE, &rl);
-          simgrid::config::set_as_string("debug/stacktrace", "none");
           int devnull = open("/dev/null", O_WRONLY);
           dup2(devnull, 2);
           close(fds[0]);
